@@ -394,6 +394,14 @@ pub fn exec_history(
         let label_fault = step.label != "ok";
         if failed != label_fault {
             res.bump("label_mismatch");
+            if std::env::var_os("NBSIM_DUMP_MISMATCH").is_some() {
+                eprintln!(
+                    "[label-mismatch] label={} outcome={} :: {}",
+                    step.label,
+                    oa.result_text().replace('\n', " ").chars().take(200).collect::<String>(),
+                    step.text.replace('\n', " ⏎ ")
+                );
+            }
         }
         if failed {
             faults_fired += 1;
